@@ -11,5 +11,6 @@ func TestVerifReplay(t *testing.T) {
 		"VerifC09Quick":      VerifC09Quick,
 		"VerifC09Thorough":   VerifC09Thorough,
 		"VerifC11RuleChange": VerifC11RuleChange,
+		"VerifC07Invoke":     VerifC07Invoke,
 	})
 }
